@@ -4,6 +4,7 @@ package netsim
 
 import (
 	"fmt"
+	"net/netip"
 	"sort"
 	"strings"
 	"testing"
@@ -12,6 +13,8 @@ import (
 	"github.com/scionproto/scion/pkg/addr"
 	seg "github.com/scionproto/scion/pkg/segment"
 	"github.com/scionproto/scion/private/path/combinator"
+	"github.com/scionproto/scion/private/topology"
+	"github.com/scionproto/scion/router"
 	"verif/sim/core"
 	"verif/sim/refmodel"
 )
@@ -493,6 +496,89 @@ func combineCampaign(r *core.Run) {
 			w.checkCombine(r, src, dst, ups, cores, downs, paths)
 		}
 	}
+	// very long segments: two chains of 28-36 ASes under two core ASes, joined by one peering link near
+	// the top, so that the peering path between the two leaves needs 60-64 hop fields (64 is the most
+	// a SCION path can hold)
+	if r.Chance("longchains", 1, 3) && !r.Failed() {
+		total := 60 + r.Choice("long.total", 5)
+		la := 28 + r.Choice("long.la", 5)
+		lb := total + 2 - la // the core entries above the peering ASes are not part of the peering path
+		lw, src, dst, up, down := longChainWorld(r, la, lb)
+		ups, downs := []*seg.PathSegment{up.PS}, []*seg.PathSegment{down.PS}
+		paths := combinator.Combine(src.IA, dst.IA, ups, nil, downs, false)
+		n++
+		r.Logf("combine over long chains %s -> %s: %d+%d hop fields, %d paths", src.IA, dst.IA, la, lb, len(paths))
+		r.Covered(fmt.Sprintf("longchains/total%d/paths%d", total, min(len(paths), 2)))
+		r.Probe("c29-long-peering-path")
+		lw.checkCombine(r, src, dst, ups, nil, downs, paths)
+	}
 	r.Nontrivial = n > 0
 	r.Sample = map[string]any{"ases": len(w.ASes), "combine_calls": n, "core_segments": len(segs.Core), "down_segments": len(segs.Down)}
+}
+
+// longChainWorld builds two core ASes, a chain of la-1 ASes below the first and of lb-1 below the
+// second (so that the segments from the cores to the leaves have la and lb entries), and a peering link
+// between the first non-core AS of each chain. It returns the two leaves and their segments. No
+// routers are built.
+func longChainWorld(r *core.Run, la, lb int) (*World, *AS, *AS, *Seg, *Seg) {
+	w := &World{R: r, byIA: map[addr.IA]*AS{}, Knobs: Knobs{MaxRouters: 1}, consBeta: map[string]uint16{}}
+	mk := func(isCore bool) *AS {
+		a := &AS{Idx: len(w.ASes), Core: isCore, Intfs: map[uint16]*Intf{}}
+		a.IA = addr.MustIAFrom(1, addr.AS(0xff00_0000_1000+uint64(len(w.ASes))))
+		a.MTU = 1472
+		a.Master = r.Tape.Bytes("master", 16)
+		a.RefKey = refmodel.DeriveHopKey(a.Master)
+		a.MaxExp = 63
+		w.ASes = append(w.ASes, a)
+		w.byIA[a.IA] = a
+		return a
+	}
+	chain := func(n int) []*AS {
+		as := []*AS{mk(true)}
+		for i := 1; i < n; i++ {
+			a := mk(false)
+			w.addLink(a, as[i-1], topology.Parent, topology.Child)
+			as = append(as, a)
+		}
+		return as
+	}
+	ca, cb := chain(la), chain(lb)
+	w.addLink(ca[0], cb[0], topology.Core, topology.Core)
+	w.addLink(ca[1], cb[1], topology.Peer, topology.Peer)
+	for _, a := range w.ASes {
+		rt := &Router{AS: a, Name: fmt.Sprintf("br%d-0", a.Idx), linkToSibling: map[router.Link]*Router{},
+			Internal: netip.AddrPortFrom(netip.AddrFrom4([4]byte{10, byte(a.Idx), 0, 1}), 30042)}
+		a.Routers = []*Router{rt}
+		for _, id := range a.SortedIfIDs() {
+			a.Intfs[id].Router = rt
+			rt.Intfs = append(rt.Intfs, a.Intfs[id])
+		}
+		a.Hosts = []*Host{{AS: a, Addr: netip.AddrFrom4([4]byte{10, byte(a.Idx), 1, 1})}}
+		a.CSAddr = netip.AddrPortFrom(netip.AddrFrom4([4]byte{10, byte(a.Idx), 2, 1}), 30252)
+		a.PortStart, a.PortEnd, a.PortRange = 31000, 32767, "31000-32767"
+		if err := a.BuildTopo(); err != nil {
+			panic(core.InfraError{Msg: "long chain topology: " + err.Error()})
+		}
+	}
+	walk := func(as []*AS) *Seg {
+		in, eg := []uint16{0}, []uint16{}
+		for i := 1; i < len(as); i++ {
+			// the link between as[i-1] (parent) and as[i]
+			var down *Intf
+			for _, id := range as[i-1].SortedIfIDs() {
+				if x := as[i-1].Intfs[id]; x.Remote.AS == as[i] && x.Type == topology.Child {
+					down = x
+				}
+			}
+			eg = append(eg, down.ID)
+			in = append(in, down.Remote.ID)
+		}
+		eg = append(eg, 0)
+		sg, err := w.walkSeg(time.Now().Add(-time.Minute), uint16(r.Choice("segid", 1<<16)), as, in, eg, false)
+		if err != nil {
+			panic(core.InfraError{Msg: "long chain segment: " + err.Error()})
+		}
+		return sg
+	}
+	return w, ca[la-1], cb[lb-1], walk(ca), walk(cb)
 }
